@@ -132,7 +132,7 @@ mut('m10_iteminsert_lenient_story', 'C03',
     (MT, """        story, story_index = find_child_by_id(parent=ro.base_tag, child_tag='story', id=self.story.id)
         if story is None:
             raise MosMergeError(
-                f"{self.__class__.__name__} error in {self.message_id} - target story not found"
+                f"{self.__class__.__name__} error in {self._message_label} - target story not found"
             )
         if self.item.id is None:
             # move to the end""",
@@ -141,7 +141,7 @@ mut('m10_iteminsert_lenient_story', 'C03',
             story = ro.base_tag.find('story')
         if story is None:
             raise MosMergeError(
-                f"{self.__class__.__name__} error in {self.message_id} - target story not found"
+                f"{self.__class__.__name__} error in {self._message_label} - target story not found"
             )
         if self.item.id is None:
             # move to the end""", None))
@@ -149,7 +149,7 @@ mut('m10b_itemdelete_searches_all_stories', 'C03',
     (MT, """        for item in self.items:
             found_node, found_index = find_child_by_id(parent=story, child_tag='item', id=item.id)
             if found_node is None:
-                msg = f"{self.__class__.__name__} error in {self.message_id} - item not found\"""",
+                msg = f"{self.__class__.__name__} error in {self._message_label} - item not found\"""",
      """        for item in self.items:
             found_node, found_index = find_child_by_id(parent=story, child_tag='item', id=item.id)
             if found_node is None:
@@ -162,7 +162,7 @@ mut('m10b_itemdelete_searches_all_stories', 'C03',
                 if found_node is not None:
                     continue
             if found_node is None:
-                msg = f"{self.__class__.__name__} error in {self.message_id} - item not found\"""", None))
+                msg = f"{self.__class__.__name__} error in {self._message_label} - item not found\"""", None))
 # ---- C04
 mut('m11_storysend_renames_nested_storyitems', 'C04',
     (MT, """        for item in ss_tag.find('storyBody').findall('storyItem'):""",
@@ -216,7 +216,7 @@ mut('m12c_metadata_replace_skips_empty', 'C04',
 mut('m15_eastorymove_interleaved', 'C05',
     (MT, """            if story is target_story or any(story is s for s in stories):
                 raise MosMergeError(
-                    f"{self.__class__.__name__} error in {self.message_id} - duplicate story ID"
+                    f"{self.__class__.__name__} error in {self._message_label} - duplicate story ID"
                 )
             stories.append(story)
 
@@ -224,7 +224,7 @@ mut('m15_eastorymove_interleaved', 'C05',
             remove_node(parent=ro.base_tag, node=story)""",
      """            if story is target_story or any(story is s for s in stories):
                 raise MosMergeError(
-                    f"{self.__class__.__name__} error in {self.message_id} - duplicate story ID"
+                    f"{self.__class__.__name__} error in {self._message_label} - duplicate story ID"
                 )
             stories.append(story)
             remove_node(parent=ro.base_tag, node=story)
@@ -233,11 +233,11 @@ mut('m16_eaitemswap_remove_before_second_lookup', 'C05',
     (MT, """        item2, item2_index = find_child_by_id(parent=story, child_tag='item', id=source_item_2.id)
         if item2 is None:
             raise MosMergeError(
-                f"{self.__class__.__name__} error in {self.message_id} - item 2 not found"
+                f"{self.__class__.__name__} error in {self._message_label} - item 2 not found"
             )
         if item1 is item2:
             raise MosMergeError(
-                f"{self.__class__.__name__} error in {self.message_id} - cannot swap an item with itself"
+                f"{self.__class__.__name__} error in {self._message_label} - cannot swap an item with itself"
             )
         if item1_index > item2_index:
             item1, item1_index, item2, item2_index = item2, item2_index, item1, item1_index
@@ -247,7 +247,7 @@ mut('m16_eaitemswap_remove_before_second_lookup', 'C05',
         item2, item2_index = find_child_by_id(parent=story, child_tag='item', id=source_item_2.id)
         if item2 is None:
             raise MosMergeError(
-                f"{self.__class__.__name__} error in {self.message_id} - item 2 not found"
+                f"{self.__class__.__name__} error in {self._message_label} - item 2 not found"
             )
         item2_index += 1 if item2_index >= item1_index else 0
         if item1_index > item2_index:
@@ -258,17 +258,17 @@ mut('m16_eaitemswap_remove_before_second_lookup', 'C05',
 mut('m16b_storyreplace_remove_before_count_check', 'C05',
     (MT, """        if len(self.stories) == 0:
             raise MosMergeError(
-                f"{self.__class__.__name__} error in {self.message_id} - no stories to insert"
+                f"{self.__class__.__name__} error in {self._message_label} - no stories to insert"
             )
         remove_node(parent=ro.base_tag, node=story)""",
      """        remove_node(parent=ro.base_tag, node=story)
         if len(self.stories) == 0:
             raise MosMergeError(
-                f"{self.__class__.__name__} error in {self.message_id} - no stories to insert"
+                f"{self.__class__.__name__} error in {self._message_label} - no stories to insert"
             )""", None))
 # ---- C06
 mut('m17_storydelete_break_after_miss', 'C06',
-    (MT, """                msg = f"{self.__class__.__name__} error in {self.message_id} - story not found"
+    (MT, """                msg = f"{self.__class__.__name__} error in {self._message_label} - story not found"
                 logger.warning(msg)
                 warnings.warn(msg, StoryNotFoundWarning)
         return ro
@@ -282,7 +282,7 @@ mut('m17_storydelete_break_after_miss', 'C06',
 
 
 class ItemDelete""",
-     """                msg = f"{self.__class__.__name__} error in {self.message_id} - story not found"
+     """                msg = f"{self.__class__.__name__} error in {self._message_label} - story not found"
                 logger.warning(msg)
                 warnings.warn(msg, StoryNotFoundWarning)
                 break
@@ -298,36 +298,36 @@ class ItemDelete""",
 
 class ItemDelete""", None))
 mut('m18_eaitemdelete_wrong_category', 'C06',
-    (MT, """                msg = f"{self.__class__.__name__} error in {self.message_id} - item not found"
+    (MT, """                msg = f"{self.__class__.__name__} error in {self._message_label} - item not found"
                 logger.warning(msg)
                 warnings.warn(msg, ItemNotFoundWarning)
             else:
                 remove_node(parent=story, node=item)""",
-     """                msg = f"{self.__class__.__name__} error in {self.message_id} - item not found"
+     """                msg = f"{self.__class__.__name__} error in {self._message_label} - item not found"
                 logger.warning(msg)
                 warnings.warn(msg, StoryNotFoundWarning)
             else:
                 remove_node(parent=story, node=item)""", None))
 mut('m19_storyinsert_silent_duplicate', 'C06',
-    (MT, """                msg = f"{self.__class__.__name__} error in {self.message_id} - story already found in running order"
+    (MT, """                msg = f"{self.__class__.__name__} error in {self._message_label} - story already found in running order"
                 logger.warning(msg)
                 warnings.warn(msg, DuplicateStoryWarning)
                 continue""",
-     """                msg = f"{self.__class__.__name__} error in {self.message_id} - story already found in running order"
+     """                msg = f"{self.__class__.__name__} error in {self._message_label} - story already found in running order"
                 logger.warning(msg)
                 continue""", None))
 mut('m19b_warn_once_per_message', 'C06',
     (MT, """        for source_story in self.stories:
             story, story_index = find_child_by_id(parent=ro.base_tag, child_tag='story', id=source_story.id)
             if story is None:
-                msg = f"{self.__class__.__name__} error in {self.message_id} - story not found"
+                msg = f"{self.__class__.__name__} error in {self._message_label} - story not found"
                 logger.warning(msg)
                 warnings.warn(msg, StoryNotFoundWarning)""",
      """        warned = False
         for source_story in self.stories:
             story, story_index = find_child_by_id(parent=ro.base_tag, child_tag='story', id=source_story.id)
             if story is None:
-                msg = f"{self.__class__.__name__} error in {self.message_id} - story not found"
+                msg = f"{self.__class__.__name__} error in {self._message_label} - story not found"
                 logger.warning(msg)
                 if not warned:
                     warnings.warn(msg, StoryNotFoundWarning)
@@ -716,22 +716,22 @@ mut('m57_id_fallback_again', 'C20',
 
 # ---- hostile IDs
 mut('m58_find_child_strips_ids', 'C01 C02 C03',
-    (UX, """            if child_id == id:""",
+    (UX, """            if child_id is not None and child_id == id:""",
      """            if child_id is not None and child_id.strip() == id.strip():""", None))
 mut('m59_find_child_case_insensitive', 'C01 C02',
-    (UX, """            if child_id == id:""",
+    (UX, """            if child_id is not None and child_id == id:""",
      """            if child_id is not None and child_id.lower() == id.lower():""", None))
 mut('m60_storyreplace_zero_removes_first', 'C05',
     (MT, """        if len(self.stories) == 0:
             raise MosMergeError(
-                f"{self.__class__.__name__} error in {self.message_id} - no stories to insert"
+                f"{self.__class__.__name__} error in {self._message_label} - no stories to insert"
             )
         remove_node(parent=ro.base_tag, node=story)""",
      """        remove_node(parent=ro.base_tag, node=story)
         if len(self.stories) == 0:
             ro.base_tag.insert(story_index + 1, story)
             raise MosMergeError(
-                f"{self.__class__.__name__} error in {self.message_id} - no stories to insert"
+                f"{self.__class__.__name__} error in {self._message_label} - no stories to insert"
             )""", None))
 
 
@@ -740,7 +740,7 @@ mut('m61_eastorydelete_indexes_sorted_as_strings', 'C01',
     (MT, """        for source_story in self.stories:
             story, story_index = find_child_by_id(parent=ro.base_tag, child_tag='story', id=source_story.id)
             if story is None:
-                msg = f"{self.__class__.__name__} error in {self.message_id} - story not found"
+                msg = f"{self.__class__.__name__} error in {self._message_label} - story not found"
                 logger.warning(msg)
                 warnings.warn(msg, StoryNotFoundWarning)
             else:
@@ -750,7 +750,7 @@ mut('m61_eastorydelete_indexes_sorted_as_strings', 'C01',
         for source_story in self.stories:
             story, story_index = find_child_by_id(parent=ro.base_tag, child_tag='story', id=source_story.id)
             if story is None:
-                msg = f"{self.__class__.__name__} error in {self.message_id} - story not found"
+                msg = f"{self.__class__.__name__} error in {self._message_label} - story not found"
                 logger.warning(msg)
                 warnings.warn(msg, StoryNotFoundWarning)
             else:
